@@ -116,7 +116,7 @@ func (g *genCtx) genUpload(ci int, o attOpts) {
 		if g.r.chance(20) && size > 8 {
 			copy(data[g.r.intn(size-4):], marker) // file content containing the marker
 		}
-		files = append(files, UpFile{Name: name, Data: data, Type: byte(g.r.intn(5))})
+		files = append(files, UpFile{Name: HexStr(name), Data: data, Type: byte(g.r.intn(5))})
 	}
 	p.Expect.Uploads = append(p.Expect.Uploads, Upload{Conn: ci, Files: files})
 	var units []SentFrame
@@ -124,7 +124,7 @@ func (g *genCtx) genUpload(ci int, o attOpts) {
 	ctl := func(id uint16, body []byte, file int, name string) {
 		serial++
 		f := ref.Frame{ID: id, Ver19: c.Ver19, VerByte: 1, Phone: c.Phone, Serial: serial, Body: body}
-		units = append(units, SentFrame{ID: id, Serial: serial, Body: body, Valid: true, Raw: f.Encode(), File: file, Name: name})
+		units = append(units, SentFrame{ID: id, Serial: serial, Body: body, Valid: true, Raw: f.Encode(), File: file, Name: HexStr(name)})
 	}
 	alarmID := fmt.Sprintf("ALARM%06d", g.r.intn(1000000))
 	if o.markerPct > 0 && g.r.chance(o.markerPct) {
@@ -137,7 +137,7 @@ func (g *genCtx) genUpload(ci int, o attOpts) {
 	}
 	for fi := range files {
 		f := files[fi]
-		ctl(0x1211, body1211(f.Name, f.Type, len(f.Data)), fi+1, f.Name)
+		ctl(0x1211, body1211(string(f.Name), f.Type, len(f.Data)), fi+1, string(f.Name))
 		// split into chunks
 		type ch struct{ off, n int }
 		var chunks []ch
@@ -170,7 +170,7 @@ func (g *genCtx) genUpload(ci int, o attOpts) {
 		}
 		emit := func(c ch) {
 			units = append(units, SentFrame{Chunk: true, File: fi + 1, Off: c.off, Body: f.Data[c.off : c.off+c.n], Valid: true,
-				Raw: chunkUnit(dialect, f.Name, c.off, f.Data[c.off:c.off+c.n]), Name: f.Name})
+				Raw: chunkUnit(dialect, string(f.Name), c.off, f.Data[c.off:c.off+c.n]), Name: f.Name})
 		}
 		var withheld []ch
 		for i, c := range chunks {
@@ -184,7 +184,7 @@ func (g *genCtx) genUpload(ci int, o attOpts) {
 				p.Faults = append(p.Faults, "pkt.dup")
 			}
 		}
-		ctl(0x1212, body1211(f.Name, f.Type, len(f.Data)), fi+1, f.Name)
+		ctl(0x1212, body1211(string(f.Name), f.Type, len(f.Data)), fi+1, string(f.Name))
 		if len(withheld) > 0 {
 			p.Faults = append(p.Faults, "pkt.loss")
 			// partial resupply in a second round now and then, the rest in a third
@@ -197,7 +197,7 @@ func (g *genCtx) genUpload(ci int, o attOpts) {
 				for _, c := range rd {
 					emit(c)
 				}
-				ctl(0x1212, body1211(f.Name, f.Type, len(f.Data)), fi+1, f.Name)
+				ctl(0x1212, body1211(string(f.Name), f.Type, len(f.Data)), fi+1, string(f.Name))
 			}
 		}
 	}
